@@ -39,11 +39,11 @@ PROPS = {
         explanation='Every reader function brought under contract is panic-, overflow- and OOB-free for ALL its inputs: fixed-size parsers (intro, index entry, lead) by complete Kani proofs; Header::parse / parse_header incl. the per-type decode loop / parse_signature / PackageMetadata::parse / Package::parse / verify_digests / verify_signature / segment offsets / cpio Reader::new, read, finish, FileIterator::next by Verus on the verbatim bodies; decode helpers, getters and echo_signature by bounded Kani harnesses.',
     ),
     'C05': dict(
-        level='proof', verus=['c01_parse', 'c16_offsets'],
+        level='proof', verus=['c01_parse', 'c05_accessors'],
         trusted_base=[A_TOOLS, A_EXTRACT, 'A-LEAF-LINK: decode helper contracts = K:k_take_till_nul, k_parse_binary_entry, k_dec_u16/u32/u64 on the real functions with real nom', 'A-LOSSY: from_utf8_lossy is a total function of the bytes'],
         assumptions=['NOT covered: get_file_paths, get_file_entries, get_dependencies, get_changelog_entries, get_scriptlet (multizip / try_fold / collect / Path::join bodies that Verus rejects and CBMC cannot finish): "file lists assembled as directory[dirindex]+basename" and "lists zipped in order" are not decided',
                      'typed getters are bounded Kani proofs (3-entry headers)'],
-        explanation='parse_header (verbatim, incl. the real decode loop): for EVERY entry of every accepted header the stored data equals an independent decoding of the store bytes written as spec functions (strings up to the first NUL, integer arrays big-endian at full length, string / i18n arrays item by item with terminators skipped, binary verbatim) - postcondition decoded(entry, store), unbounded; typed getters return the first entry with the tag iff its type matches, else the documented error (Kani, 3 entries); get_installed_size prefers LONGSIZE then SIZE.',
+        explanation='parse_header (verbatim, incl. the real decode loop): for EVERY entry of every accepted header the stored data equals an independent decoding of the store bytes written as spec functions (strings up to the first NUL, integer arrays big-endian at full length, string / i18n arrays item by item with terminators skipped, binary verbatim) - postcondition decoded(entry, store), unbounded; typed getters return the first entry with the tag iff its type matches, else the documented error (Kani, 3 entries); the 18 scalar accessors of PackageMetadata (name, version, release, epoch, arch, vendor, url, vcs, license, packager, build host/time, cookie, source rpm, summary, description, group, installed size) return what the getter gives for the rpm tag number they are named after; get_installed_size prefers LONGSIZE then SIZE.',
     ),
     'C07': dict(
         level='proof', verus=['c07_payload', 'c07_iter'],
